@@ -36,6 +36,10 @@ pub mod c13;
 pub mod c19;
 #[cfg(feature = "facades")]
 pub mod c20;
+#[cfg(feature = "codecs")]
+pub mod c16;
+#[cfg(feature = "codecs")]
+pub mod c17;
 
 pub fn registry() -> Vec<(&'static str, fn())> {
     let mut v = Vec::new();
@@ -67,5 +71,7 @@ pub fn registry() -> Vec<(&'static str, fn())> {
     { v.extend_from_slice(c20::LIST); v.extend_from_slice(c20::dz::LIST); v.extend_from_slice(c20::d::LIST); v.extend_from_slice(c20::zz::LIST); }
     #[cfg(feature = "codecs")]
     v.extend_from_slice(c04::arb::LIST);
+    #[cfg(feature = "codecs")]
+    { v.extend_from_slice(c16::LIST); v.extend_from_slice(c17::LIST); }
     v
 }
